@@ -32,7 +32,8 @@ TagOf(name) == ((name - 1) % 8) + 1
 
 NewH(id, host, port, role) ==
   [id |-> id, host |-> host, port |-> port, role |-> role, wr |-> 0, rd |-> 0, tag |-> 0, shut |-> FALSE,
-   dropped |-> FALSE, bridged |-> FALSE, eof |-> FALSE, stall |-> FALSE, born |-> 0]
+   dropped |-> FALSE, bridged |-> FALSE, eof |-> FALSE, stall |-> FALSE, born |-> 0,
+   mate |-> 0]        \* the handle on the other endpoint that belongs to the same Connect (0 = not known)
 
 Init0 ==
   [h |-> [e \in AE |-> <<>>],          \* function handle name -> handle record (finite domain)
@@ -43,6 +44,8 @@ Init0 ==
    breq |-> [e \in AE |-> <<>>],       \* function request number -> [id, ans] of bind requests shown to e's application
    sound |-> TRUE,                     \* nothing has ended or disturbed the connection so far
    adv |-> FALSE,                      \* messages were injected / the peer is the scripted raw peer: octets may come from anywhere
+   ended |-> [e \in AE |-> FALSE],     \* the connection task of e has returned
+   ids |-> {},                         \* flow ids proposed so far in this trace (by either endpoint)
    n |-> 0, viol |-> {}]
 
 Has(f, k) == k \in DOMAIN f
@@ -51,26 +54,56 @@ Flag(s, name) == [s EXCEPT !.viol = @ \cup {name}]
 Unsound(s) == [s EXCEPT !.sound = FALSE]
 Adversary(s) == [s EXCEPT !.sound = FALSE, !.adv = TRUE]
 
-(* the handle on the other endpoint that writes what (e, h) reads: same flow id, the tag the reader sees, latest *)
-Writers(s, e, h, tag) ==
-  {p \in DOMAIN s.h[Other(e)] : s.h[Other(e)][p].id = s.h[e][h].id /\ TagOf(p) = tag}
-WriterOf(s, e, h, tag) ==
-  LET c == Writers(s, e, h, tag) IN CHOOSE p \in c : \A q \in c : s.h[Other(e)][q].born <= s.h[Other(e)][p].born
-(* ... and without a tag (nothing read yet): a live counterpart with the same flow id, if it is unique *)
-Mates(s, e, h) ==
-  {p \in DOMAIN s.h[Other(e)] : s.h[Other(e)][p].id = s.h[e][h].id /\ ~s.h[Other(e)][p].dropped}
+(* Pairing.  A stream request is call c of endpoint e with the flow id of its latest Connect; the stream the other
+   endpoint accepts under that id belongs to the OLDEST request with that id that has not been matched yet (a cancelled
+   request can still be accepted).  The requester's handle appears when its open_poll succeeds.  Flow ids are re-used, so
+   handles are never paired by id alone. *)
+Link(s, e, name, pname) ==
+  [s EXCEPT !.h[e][name].mate = pname, !.h[Other(e)][pname].mate = name]
+Unmatched(s, e, id) == {c \in DOMAIN s.opens[e] : s.opens[e][c].id = id /\ s.opens[e][c].mate = 0}
+Oldest(S) == CHOOSE c \in S : \A d \in S : c <= d
+MateOf(s, e, name) == s.h[e][name].mate
+Paired(s, e, name) == Has(s.h[e], name) /\ s.h[e][name].mate # 0 /\ Has(s.h[Other(e)], s.h[e][name].mate)
+
+(* C08: once the connection task of e has ended, every pending and every later operation of e completes *)
+TaskEnded(s, e) == [s EXCEPT !.ended[e] = TRUE, !.sound = FALSE]
+Completes(s, e, res) == IF s.ended[e] /\ res = "pending" THEN Flag(s, "C08.PendingAfterEnd") ELSE s
 
 (* ---------------------------- streams ---------------------------- *)
 Created(s, e, name, id, host, port, role) ==
   [s EXCEPT !.h[e] = Put(@, name, [NewH(id, host, port, role) EXCEPT !.born = s.n]), !.n = @ + 1]
 
-OpenCall(s, e, c, host, port) == [s EXCEPT !.opens[e] = Put(@, c, [host |-> host, port |-> port])]
+(* Flow ids carry no generation: when an id is proposed a second time in a trace, frames of its previous incarnation may
+   still be under way and act on the new one (known findings F10 / F17 of the fine specification, which tells them apart
+   with ghost incarnation numbers).  At this level they cannot be told apart, so the stream clauses stop applying. *)
+Propose(s, id) == IF id \in s.ids THEN [s EXCEPT !.sound = FALSE, !.adv = TRUE] ELSE [s EXCEPT !.ids = @ \cup {id}]
+OpenCall(s, e, c, host, port, id) ==
+  Propose([s EXCEPT !.opens[e] = Put(@, c, [host |-> host, port |-> port, id |-> id, mate |-> 0, h |-> 0])], id)
+(* the request was rejected and is sent again under a new id *)
+OpenRetry(s, e, c, id) == IF Has(s.opens[e], c) THEN Propose([s EXCEPT !.opens[e][c].id = id], id) ELSE s
+(* new_stream_channel returned the stream *)
+Opened(s, e, c, name, id) ==
+  LET s1 == Created(s, e, name, id, "", 0, "req") IN
+  IF ~Has(s.opens[e], c) THEN s1
+  ELSE LET s2 == [s1 EXCEPT !.opens[e][c].h = name] IN
+       IF s.opens[e][c].mate # 0 /\ Has(s.h[Other(e)], s.opens[e][c].mate) THEN Link(s2, e, name, s.opens[e][c].mate) ELSE s2
 
-(* C07: the accepting application sees exactly the host and port of a request made on the other endpoint *)
+(* C07: the accepting application sees exactly the host and port of the request it belongs to *)
 Accepted(s, e, name, id, host, port) ==
   LET s1 == Created(s, e, name, id, host, port, "acc")
-      ok == \E c \in DOMAIN s.opens[Other(e)] : s.opens[Other(e)][c].host = host /\ s.opens[Other(e)][c].port = port
-  IN IF s.sound /\ ~ok THEN Flag(s1, "C07.Target") ELSE s1
+      o  == Other(e)
+      cs == Unmatched(s, o, id)
+      (* a request whose Connect was rejected keeps its old id until its future is polled again: among the requests
+         with this id prefer one that names this target *)
+      good == {c \in cs : s.opens[o][c].host = host /\ s.opens[o][c].port = port}
+  IN IF good = {} THEN (IF s.sound THEN Flag(s1, "C07.Target") ELSE s1)
+     ELSE LET c  == Oldest(good)
+              k  == s.opens[o][c]
+              s2 == [s1 EXCEPT !.opens[o][c].mate = name]
+          IN IF k.h # 0 /\ Has(s.h[o], k.h) THEN Link(s2, e, name, k.h) ELSE s2
+
+(* the request ended without a stream (rejected for good, connection closed) *)
+OpenFailed(s, e, c) == IF Has(s.opens[e], c) /\ s.opens[e][c].mate = 0 THEN [s EXCEPT !.opens[e][c].id = 0] ELSE s
 
 Wrote(s, e, name, res, n) ==
   IF ~Has(s.h[e], name) THEN s
@@ -90,12 +123,13 @@ ReadData(s, e, name, n, w, off, okrun) ==
            (* C02: intact and in order -- the run continues where the previous read stopped; no cross-talk -- one tag *)
            s2 == IF ~okrun \/ off # x.rd % 32 THEN Flag(s1, "C02.Order") ELSE s1
            s3 == IF x.tag # 0 /\ x.tag # w THEN Flag(s2, "C02.CrossTalk") ELSE s2
-           ws == Writers(s, e, name, w)
        (* a transport failure loses octets but never invents or reorders them; an adversary may send anything *)
        IN IF s.adv THEN s1
-          ELSE IF ws = {} THEN Flag(s3, "C02.CrossTalk")
-          (* C02: what was read is a prefix of what successful writes accepted *)
-          ELSE IF x.rd + n > s.h[Other(e)][WriterOf(s, e, name, w)].wr THEN Flag(s3, "C02.Prefix")
+          ELSE IF ~Paired(s, e, name) THEN s3
+          (* C02: the octets come from the handle this stream is connected to ... *)
+          ELSE IF TagOf(x.mate) # w THEN Flag(s3, "C02.CrossTalk")
+          (* ... and what was read is a prefix of what its successful writes accepted *)
+          ELSE IF x.rd + n > s.h[Other(e)][x.mate].wr THEN Flag(s3, "C02.Prefix")
           ELSE s3
 
 (* a read reported end-of-stream *)
@@ -103,10 +137,8 @@ ReadEof(s, e, name) ==
   IF ~Has(s.h[e], name) THEN s
   ELSE LET x == s.h[e][name]
            s1 == [s EXCEPT !.h[e][name].eof = TRUE]
-           ms == IF x.tag # 0 THEN Writers(s, e, name, x.tag) ELSE Mates(s, e, name)
-       IN IF ~s.sound \/ x.eof THEN s1
-          ELSE IF Cardinality(ms) # 1 THEN s1              \* the writer cannot be told (or is gone): no judgement
-          ELSE LET y == s.h[Other(e)][CHOOSE p \in ms : TRUE] IN
+       IN IF ~s.sound \/ x.eof \/ ~Paired(s, e, name) THEN s1
+          ELSE LET y == s.h[Other(e)][x.mate] IN
                (* C05: only after the peer shut down or let go of the stream ... *)
                IF ~y.shut /\ ~y.dropped /\ ~y.bridged THEN Flag(s1, "C05.EarlyEof")
                (* ... and, after a clean shutdown, only after every octet it wrote *)
@@ -123,13 +155,11 @@ Quiescent(s) ==
   IF ~s.sound THEN s
   ELSE LET live(e, p) == LET x == s.h[e][p] IN ~x.dropped /\ ~x.bridged
            stalled == \E e \in AE : \E p \in DOMAIN s.h[e] :
-                        /\ live(e, p) /\ s.h[e][p].stall /\ ~s.h[e][p].shut
-                        /\ \E q \in Mates(s, e, p) : live(Other(e), q) /\ ~s.h[Other(e)][q].eof
+                        /\ live(e, p) /\ s.h[e][p].stall /\ ~s.h[e][p].shut /\ Paired(s, e, p)
+                        /\ live(Other(e), s.h[e][p].mate) /\ ~s.h[Other(e)][s.h[e][p].mate].eof
            undelivered == \E e \in AE : \E p \in DOMAIN s.h[e] :
-                        /\ live(e, p) /\ s.h[e][p].tag # 0 /\ ~s.h[e][p].eof
-                        /\ Cardinality(Writers(s, e, p, s.h[e][p].tag)) = 1
-                        /\ LET y == s.h[Other(e)][WriterOf(s, e, p, s.h[e][p].tag)] IN
-                           ~y.dropped /\ ~y.bridged /\ s.h[e][p].rd < y.wr
+                        /\ live(e, p) /\ ~s.h[e][p].eof /\ Paired(s, e, p)
+                        /\ live(Other(e), s.h[e][p].mate) /\ s.h[e][p].rd < s.h[Other(e)][s.h[e][p].mate].wr
        IN IF stalled THEN Flag(s, "C04.Stall") ELSE IF undelivered THEN Flag(s, "C04.Undelivered") ELSE s
 
 (* --------------------------- datagrams --------------------------- *)
@@ -143,7 +173,7 @@ DgGot(s, e, d) ==
      ELSE [s EXCEPT !.dgi[e] = CHOOSE i \in later : \A j \in later : i <= j]
 
 (* ----------------------------- binds ----------------------------- *)
-BindCall(s, e, c, id, bt, host, port) == [s EXCEPT !.binds[e] = Put(@, c, [id |-> id, bt |-> bt, host |-> host, port |-> port])]
+BindCall(s, e, c, id, bt, host, port) == Propose([s EXCEPT !.binds[e] = Put(@, c, [id |-> id, bt |-> bt, host |-> host, port |-> port])], id)
 (* C15: the peer application is shown exactly the requested type, host and port under the requester's flow id *)
 BindShown(s, e, r, id, bt, host, port) ==
   LET s1 == [s EXCEPT !.breq[e] = Put(@, r, [id |-> id, ans |-> "none"])]
